@@ -49,4 +49,10 @@ def verifyDelayPeriodPassed (now : Nat) (self : Height) (pt : Option Nat) (ph : 
   | .ok => blockCheck self ph db
   | r => r
 
+/-- a packet-related proof verified at proof height `H` over a connection with delay periods: whatever
+    else the handler checks (`base`), the two delays are counted from the processed time / height
+    stored for the consensus state AT `H` (`pt`, `ph` are the client-store entries of that height) -/
+def delayedProofAccepted (base : Bool) (now : Nat) (self : Height) (pt : Option Nat) (ph : Option Height) (dt db : Nat) : Bool :=
+  base && (match verifyDelayPeriodPassed now self pt ph dt db with | .ok => true | _ => false)
+
 end IbcVerif.Delay
